@@ -30,25 +30,9 @@ pub fn classify(e: &io::Error) -> Errc {
         K::IsADirectory => Errc::IsDir,
         K::NotADirectory => Errc::NotDir,
         K::DirectoryNotEmpty => Errc::NotEmpty,
-        _ => {
-            let m = e.to_string();
-            let ml = m.to_lowercase();
-            if ml.contains("no such file") || ml.contains("not found") {
-                Errc::NotFound
-            } else if ml.contains("file exists") || ml.contains("already exists") {
-                Errc::Exists
-            } else if ml.contains("is a directory") {
-                Errc::IsDir
-            } else if ml.contains("not a directory") {
-                Errc::NotDir
-            } else if ml.contains("not empty") {
-                Errc::NotEmpty
-            } else if ml.contains("invalid") {
-                Errc::Invalid
-            } else {
-                Errc::Other(m)
-            }
-        }
+        // error KINDS are a compared observable: an errno text wrapped in an
+        // uncategorised io::Error is not the POSIX kind
+        k => Errc::Other(format!("{k:?}: {e}")),
     }
 }
 
@@ -139,6 +123,7 @@ fn std_step(f: &mut sfs::File, s: &Step) -> Ret {
         Step::SetLen { len } => r_unit(f.set_len(*len)),
         Step::SyncAll => r_unit(f.sync_all()),
         Step::SyncData => r_unit(f.sync_data()),
+        Step::Rename { a, b } => r_unit(sfs::rename(a, b)),
         Step::Len => match f.metadata() {
             Ok(m) => Ret::Ok(Val::Count(m.len())),
             Err(e) => Ret::Err(classify(&e)),
@@ -275,6 +260,7 @@ async fn tokio_step(f: &mut tfs::File, s: &Step) -> Ret {
         Step::SetLen { len } => r_unit(f.set_len(*len).await),
         Step::SyncAll => r_unit(f.sync_all().await),
         Step::SyncData => r_unit(f.sync_data().await),
+        Step::Rename { a, b } => r_unit(tfs::rename(a, b).await),
         Step::Len => match f.metadata().await {
             Ok(m) => Ret::Ok(Val::Count(m.len())),
             Err(e) => Ret::Err(classify(&e)),
@@ -449,6 +435,10 @@ pub struct Cfg {
     pub capacity: Option<u64>,
     /// O_DIRECT alignment (None = default 512)
     pub dio_align: Option<u64>,
+    /// open a read-only and a write-only handle per file (C18)
+    pub rw_modes: bool,
+    /// io_error_probability switched on after the setup (C18 directed)
+    pub io_err: f64,
 }
 
 impl Default for Cfg {
@@ -461,6 +451,8 @@ impl Default for Cfg {
             fs_seed: 1,
             capacity: None,
             dio_align: None,
+            rw_modes: false,
+            io_err: 0.0,
         }
     }
 }
@@ -475,6 +467,8 @@ impl Cfg {
             "fs_seed": self.fs_seed,
             "capacity": self.capacity,
             "dio_align": self.dio_align,
+            "rw_modes": self.rw_modes,
+            "io_err": self.io_err,
         })
     }
     pub fn from_json(v: &serde_json::Value) -> Cfg {
@@ -486,6 +480,8 @@ impl Cfg {
             fs_seed: v["fs_seed"].as_u64().unwrap_or(1),
             capacity: v["capacity"].as_u64(),
             dio_align: v["dio_align"].as_u64(),
+            rw_modes: v["rw_modes"].as_bool().unwrap_or(false),
+            io_err: v["io_err"].as_f64().unwrap_or(0.0),
         }
     }
     pub fn fs_config(&self) -> FsConfig {
